@@ -23,22 +23,49 @@ theorem Bin.not_semi {o : Token} (h : Bin o) : (o.ty == TokType.SEMICOLON) = fal
   have := h.1
   cases hty : o.ty <;> simp [hty, infixFn] at this <;> rfl
 
-/-- operator trees over identifiers -/
+/-- what `parseExpression` does with the result of its infix loop: undo the nesting count -/
+def unwind (x : Option (Expr × PState)) : Option (Expr × PState) :=
+  match x with
+  | none => none
+  | some (e, s) => some (e, { s with depth := s.depth - 1 })
+
+/-- a token that, in operand position, is a complete operand `e` by itself: it becomes the left operand of
+    the infix loop -/
+def Atom (tok : Token) (e : Expr) : Prop :=
+  ∀ (f p : Nat) (rest : List Token) (prev : Token) (tn fn : Bool) (d : Nat), d + 1 ≤ maxNesting →
+    parseExpression (f + 2) p ⟨tok :: rest, prev, tn, fn, d⟩ =
+      unwind (infixLoop (f + 1) p e ⟨tok :: rest, prev, tn, fn, d + 1⟩)
+
+/-- prefix operator tokens: `!`, `-`, `√` -/
+def Pre (o : Token) : Prop := prefixFn o.ty = some .prefixOp
+
+/-- operator trees over atoms: prefix and binary operators -/
 inductive T
-  | leaf (name : Str)
+  | leaf (tok : Token) (e : Expr)
+  | pre (o : Token) (r : T)
   | node (o : Token) (l r : T)
 
 def T.wf : T → Prop
-  | .leaf _ => True
+  | .leaf tok e => Atom tok e
+  | .pre o r => Pre o ∧ r.wf
   | .node o l r => Bin o ∧ l.wf ∧ r.wf
 
 /-- the level of a tree: the precedence of its root operator; atoms bind tightest -/
 def T.lvl : T → Nat
-  | .leaf _ => 100
+  | .leaf _ _ => 100
+  | .pre _ _ => PREFIX
+  | .node o _ _ => precedence o.ty
+
+/-- the level below which the tree can stand as an operand without parentheses: a prefix operator
+    is taken whatever the level -/
+def T.plvl : T → Nat
+  | .leaf _ _ => 100
+  | .pre _ _ => 100
   | .node o _ _ => precedence o.ty
 
 def T.toExpr : T → Expr
-  | .leaf n => .ident n
+  | .leaf _ e => e
+  | .pre o r => .prefix o.lit r.toExpr
   | .node o l r => .infix o.lit l.toExpr r.toExpr
 
 def lpT : Token := ⟨.LPAREN, ['(']⟩
@@ -49,24 +76,76 @@ def parenIf (b : Bool) (ts : List Token) : List Token := if b then lpT :: ts ++ 
 /-- print with the parentheses the documented rules make necessary, and no others: a left operand of
     lower level, a right operand of lower or equal level (operators group left to right) -/
 def T.pr : T → List Token
-  | .leaf n => [⟨.IDENT, n⟩]
+  | .leaf tok _ => [tok]
+  | .pre o r => [o] ++ parenIf (r.lvl < PREFIX) r.pr
   | .node o l r => parenIf (l.lvl < precedence o.ty) l.pr ++ [o] ++ parenIf (r.lvl ≤ precedence o.ty) r.pr
 
 
-/-- what `parseExpression` does with the result of its infix loop: undo the nesting count -/
-def unwind (x : Option (Expr × PState)) : Option (Expr × PState) :=
-  match x with
-  | none => none
-  | some (e, s) => some (e, { s with depth := s.depth - 1 })
-
-/-- an identifier in operand position: it becomes the left operand of the infix loop -/
-theorem parse_ident (f p : Nat) (n : Str) (rest : List Token) (prev : Token) (tn fn : Bool) (d : Nat)
-    (hd : d + 1 ≤ maxNesting) :
-    parseExpression (f + 2) p ⟨⟨.IDENT, n⟩ :: rest, prev, tn, fn, d⟩ =
-      unwind (infixLoop (f + 1) p (.ident n) ⟨⟨.IDENT, n⟩ :: rest, prev, tn, fn, d + 1⟩) := by
+/-- an identifier in operand position is an atom -/
+theorem atom_ident (n : Str) : Atom ⟨.IDENT, n⟩ (.ident n) := by
+  intro f p rest prev tn fn d hd
   have hd' : ¬ (d + 1 > maxNesting) := by omega
   simp [parseExpression, parsePrefix, PState.cur, isPostfix, prefixFn, hd', unwind]
   cases infixLoop (f + 1) p (Expr.ident n) ⟨⟨.IDENT, n⟩ :: rest, prev, tn, fn, d + 1⟩ <;> rfl
+
+theorem atom_string (v : Str) : Atom ⟨.STRING, v⟩ (.strLit v) := by
+  intro f p rest prev tn fn d hd
+  have hd' : ¬ (d + 1 > maxNesting) := by omega
+  simp [parseExpression, parsePrefix, PState.cur, isPostfix, prefixFn, hd', unwind]
+  cases infixLoop (f + 1) p (Expr.strLit v) ⟨⟨.STRING, v⟩ :: rest, prev, tn, fn, d + 1⟩ <;> rfl
+
+theorem atom_true (l : Str) : Atom ⟨.TRUE, l⟩ (.boolLit true) := by
+  intro f p rest prev tn fn d hd
+  have hd' : ¬ (d + 1 > maxNesting) := by omega
+  simp [parseExpression, parsePrefix, PState.cur, PState.curIs, isPostfix, prefixFn, hd', unwind]
+  cases infixLoop (f + 1) p (Expr.boolLit true) ⟨⟨.TRUE, l⟩ :: rest, prev, tn, fn, d + 1⟩ <;> rfl
+
+theorem atom_false (l : Str) : Atom ⟨.FALSE, l⟩ (.boolLit false) := by
+  intro f p rest prev tn fn d hd
+  have hd' : ¬ (d + 1 > maxNesting) := by omega
+  simp [parseExpression, parsePrefix, PState.cur, PState.curIs, isPostfix, prefixFn, hd', unwind,
+    show (TokType.FALSE == TokType.TRUE) = false from rfl]
+  cases infixLoop (f + 1) p (Expr.boolLit false) ⟨⟨.FALSE, l⟩ :: rest, prev, tn, fn, d + 1⟩ <;> rfl
+
+/-- an integer literal whose digits denote `v` -/
+theorem atom_int (l : Str) (v : Int64) (h : parseIntLit l = some v) : Atom ⟨.INT, l⟩ (.intLit l v) := by
+  intro f p rest prev tn fn d hd
+  have hd' : ¬ (d + 1 > maxNesting) := by omega
+  simp [parseExpression, parsePrefix, PState.cur, isPostfix, prefixFn, hd', unwind, h]
+  cases infixLoop (f + 1) p (Expr.intLit l v) ⟨⟨.INT, l⟩ :: rest, prev, tn, fn, d + 1⟩ <;> rfl
+
+theorem atom_float (l : Str) (v : Float) (h : parseFloatLit l = some v) : Atom ⟨.FLOAT, l⟩ (.floatLit l v) := by
+  intro f p rest prev tn fn d hd
+  have hd' : ¬ (d + 1 > maxNesting) := by omega
+  simp [parseExpression, parsePrefix, PState.cur, isPostfix, prefixFn, hd', unwind, h]
+  cases infixLoop (f + 1) p (Expr.floatLit l v) ⟨⟨.FLOAT, l⟩ :: rest, prev, tn, fn, d + 1⟩ <;> rfl
+
+theorem atom_regexp (l : Str) : Atom ⟨.REGEXP, l⟩ (.regexpLit l (splitRegexp l).1 (splitRegexp l).2) := by
+  intro f p rest prev tn fn d hd
+  have hd' : ¬ (d + 1 > maxNesting) := by omega
+  simp [parseExpression, parsePrefix, PState.cur, isPostfix, prefixFn, hd', unwind]
+  cases infixLoop (f + 1) p (Expr.regexpLit l (splitRegexp l).1 (splitRegexp l).2) ⟨⟨.REGEXP, l⟩ :: rest, prev, tn, fn, d + 1⟩ <;> rfl
+
+/-- a prefix operator in operand position: its operand is parsed at the prefix level, and the whole
+    becomes the left operand of the infix loop -/
+theorem parse_pre (f p : Nat) (o : Token) (inner : List Token) (prev : Token) (tn fn : Bool) (d : Nat)
+    (ho : Pre o) (hd : d + 1 ≤ maxNesting) :
+    parseExpression (f + 2) p ⟨o :: inner, prev, tn, fn, d⟩ =
+      (match parseExpression f PREFIX ⟨inner, o, tn, fn, d + 1⟩ with
+       | none => none
+       | some (r, s2) => unwind (infixLoop (f + 1) p (.prefix o.lit r) s2)) := by
+  have hd' : ¬ (d + 1 > maxNesting) := by omega
+  have hpo : isPostfix o.ty = false := by
+    unfold Pre at ho
+    cases hty : o.ty <;> simp [hty, prefixFn] at ho <;> rfl
+  unfold Pre at ho
+  simp [parseExpression, parsePrefix, PState.cur, PState.next, hpo, ho, hd', unwind]
+  cases parseExpression f PREFIX ⟨inner, o, tn, fn, d + 1⟩ with
+  | none => rfl
+  | some r =>
+    obtain ⟨e, s2⟩ := r
+    simp
+    cases infixLoop (f + 1) p (Expr.prefix o.lit e) s2 <;> rfl
 
 /-- a parenthesis in operand position: the inside is parsed from the lowest level, the closing
     parenthesis is required, and the result becomes the left operand of the infix loop -/
@@ -115,17 +194,20 @@ theorem loop_step (f p : Nat) (left : Expr) (c o : Token) (rest : List Token) (p
 
 
 def T.size : T → Nat
-  | .leaf _ => 1
+  | .leaf _ _ => 1
+  | .pre _ r => r.size + 3
   | .node _ l r => l.size + r.size + 3
 
 /-- fuel the infix loop has used up when `t` stands built as its left operand -/
 def T.k : T → Nat
-  | .leaf _ => 1
+  | .leaf _ _ => 1
+  | .pre _ _ => 1
   | .node o l _ => (if l.lvl < precedence o.ty then 1 else l.k) + 1
 
 /-- nesting of `parseExpression` calls needed for `t` -/
 def T.nest : T → Nat
-  | .leaf _ => 1
+  | .leaf _ _ => 1
+  | .pre _ r => r.nest + 1 + (if r.lvl < PREFIX then 1 else 0)
   | .node o l r => max (l.nest + (if l.lvl < precedence o.ty then 1 else 0))
                        (r.nest + 1 + (if r.lvl ≤ precedence o.ty then 1 else 0))
 
@@ -133,14 +215,16 @@ theorem T.size_pos (t : T) : 1 ≤ t.size := by cases t <;> simp [T.size]
 theorem T.k_pos (t : T) : 1 ≤ t.k := by cases t <;> simp [T.k]
 theorem T.k_le_size (t : T) : t.k ≤ t.size := by
   induction t with
-  | leaf n => simp [T.k, T.size]
+  | leaf tok e => simp [T.k, T.size]
+  | pre o r ih => simp [T.k, T.size]
   | node o l r ihl ihr =>
     simp only [T.k, T.size]
     have := r.size_pos
     split <;> omega
 theorem T.nest_pos (t : T) : 1 ≤ t.nest := by
   cases t with
-  | leaf n => simp [T.nest]
+  | leaf tok e => simp [T.nest]
+  | pre o r => simp only [T.nest]; omega
   | node o l r => simp only [T.nest]; omega
 
 def headPrec (rest : List Token) : Nat := precedence (rest.headD Token.eof).ty
@@ -157,8 +241,17 @@ theorem lastTok_append_ne (a b : List Token) (hb : b ≠ []) : lastTok (a ++ b) 
 
 theorem T.lvl_pos (t : T) (h : t.wf) : LOWEST < t.lvl := by
   cases t with
-  | leaf n => simp [T.lvl, LOWEST]
+  | leaf tok e => simp [T.lvl, LOWEST]
+  | pre o r => simp [T.lvl, LOWEST, PREFIX]
   | node o l r => exact h.1.prec_pos
+
+theorem T.lvl_le_plvl (t : T) (h : t.wf) : t.lvl ≤ t.plvl := by
+  cases t with
+  | leaf tok e => simp [T.lvl, T.plvl]
+  | pre o r => simp [T.lvl, T.plvl, PREFIX]
+  | node o l r => simp [T.lvl, T.plvl]
+
+theorem T.plvl_pos (t : T) (h : t.wf) : LOWEST < t.plvl := Nat.lt_of_lt_of_le (t.lvl_pos h) (t.lvl_le_plvl h)
 
 theorem precedence_le (t : TokType) : precedence t ≤ 14 := by
   cases t <;> simp [precedence, LOWEST, TERNARY, ASSIGN, COND, EQUALS, CMP, LESSGREATER, SUM, PRODUCT, POWER, MOD, PREFIX, CALL, INDEX]
@@ -167,14 +260,14 @@ theorem precedence_le (t : TokType) : precedence t ≤ 14 := by
     continuing the infix loop with the tree already built as left operand -/
 def Lstmt (t : T) : Prop :=
   ∀ (p f : Nat) (rest : List Token) (prev : Token) (tn fn : Bool) (d : Nat),
-    p < t.lvl → headPrec rest ≤ t.lvl → d + t.nest ≤ maxNesting → 4 * t.size ≤ f →
+    p < t.plvl → headPrec rest ≤ t.lvl → d + t.nest ≤ maxNesting → 4 * t.size ≤ f →
     ∃ prev', parseExpression f p ⟨t.pr ++ rest, prev, tn, fn, d⟩ =
       unwind (infixLoop (f - t.k) p t.toExpr ⟨lastTok t.pr :: rest, prev', tn, fn, d + 1⟩)
 
 /-- the same for an operand as it is printed inside a bigger tree, with or without parentheses -/
 theorem operand_of_L (t : T) (hwf : t.wf) (hL : Lstmt t) (b : Bool) (p f : Nat) (rest : List Token) (prev : Token)
     (tn fn : Bool) (d : Nat)
-    (hb : b = false → p < t.lvl ∧ headPrec rest ≤ t.lvl)
+    (hb : b = false → p < t.plvl ∧ headPrec rest ≤ t.lvl)
     (hd : d + t.nest + (if b then 1 else 0) ≤ maxNesting) (hf : 4 * t.size + 3 ≤ f) :
     ∃ prev', parseExpression f p ⟨parenIf b t.pr ++ rest, prev, tn, fn, d⟩ =
       unwind (infixLoop (f - (if b then 1 else t.k)) p t.toExpr
@@ -190,7 +283,7 @@ theorem operand_of_L (t : T) (hwf : t.wf) (hL : Lstmt t) (b : Bool) (p f : Nat) 
     have hnest := t.nest_pos
     rw [show (lpT :: t.pr ++ [rpT]) ++ rest = lpT :: (t.pr ++ (rpT :: rest)) by simp]
     rw [parse_group f' p _ prev tn fn d (by omega)]
-    obtain ⟨pv, hin⟩ := hL LOWEST f' (rpT :: rest) lpT tn fn (d + 1) (t.lvl_pos hwf)
+    obtain ⟨pv, hin⟩ := hL LOWEST f' (rpT :: rest) lpT tn fn (d + 1) (t.plvl_pos hwf)
       (by simp [headPrec, rpT, precedence]; exact Nat.le_of_lt (t.lvl_pos hwf)) (by omega) (by omega)
     rw [hin]
     have hk := t.k_le_size
@@ -209,20 +302,66 @@ theorem parenIf_ne_nil (b : Bool) (t : T) : parenIf b t.pr ≠ [] := by
   cases b <;> simp [parenIf, T.pr_ne_nil]
 
 theorem L_all : ∀ (t : T), t.wf → Lstmt t
-  | .leaf n, _ => by
+  | .leaf tok e, hwf => by
     intro p f rest prev tn fn d _ _ hd hf
     simp only [T.size, T.nest] at hd hf
     obtain ⟨f', rfl⟩ : ∃ f', f = f' + 2 := ⟨f - 2, by omega⟩
     refine ⟨prev, ?_⟩
     simp only [T.pr, List.singleton_append, T.k, T.toExpr]
-    rw [parse_ident f' p n rest prev tn fn d (by omega)]
+    rw [hwf f' p rest prev tn fn d (by omega)]
     rfl
+  | .pre o r, hwf => by
+    obtain ⟨ho, hwr⟩ := hwf
+    have ihr := L_all r hwr
+    intro p f rest prev tn fn d hp hrest hd hf
+    simp only [T.lvl, T.plvl] at hp hrest
+    simp only [T.size] at hf
+    simp only [T.nest] at hd
+    have hkr := r.k_le_size
+    have hsr := r.size_pos
+    obtain ⟨f', rfl⟩ : ∃ f', f = f' + 2 := ⟨f - 2, by omega⟩
+    have e1 : (T.pre o r).pr ++ rest = o :: (parenIf (r.lvl < PREFIX) r.pr ++ rest) := by simp [T.pr]
+    rw [e1, parse_pre f' p o _ prev tn fn d ho (by omega)]
+    obtain ⟨pv2, h2⟩ := operand_of_L r hwr ihr (decide (r.lvl < PREFIX)) PREFIX f' rest o tn fn (d + 1)
+      (by
+        intro hb
+        have : ¬ (r.lvl < PREFIX) := by simpa using hb
+        have := r.lvl_le_plvl hwr
+        refine ⟨?_, by omega⟩
+        -- a prefix operand is taken at any level; anything else that needs no parentheses is an atom
+        cases r with
+        | leaf tok e => simp [T.plvl, PREFIX]
+        | pre o2 r2 => simp [T.plvl, PREFIX]
+        | node o2 l2 r2 =>
+          have hne : precedence o2.ty ≠ PREFIX := by
+            cases o2.ty <;> simp [precedence, PREFIX, LOWEST, TERNARY, ASSIGN, COND, EQUALS, CMP, LESSGREATER, SUM, PRODUCT, POWER, MOD, CALL, INDEX]
+          simp only [T.lvl, T.plvl] at *
+          omega)
+      (by
+        by_cases hb : r.lvl < PREFIX <;> simp [hb] at hd ⊢ <;> omega)
+      (by omega)
+    simp only [decide_eq_true_eq] at h2
+    rw [h2]
+    obtain ⟨h, hh⟩ : ∃ h, f' - (if r.lvl < PREFIX then 1 else r.k) = h + 1 :=
+      ⟨f' - (if r.lvl < PREFIX then 1 else r.k) - 1, by split <;> omega⟩
+    rw [hh, loop_stop h PREFIX _ _ (by
+      simp only [PState.peek, List.tail_cons]
+      have : headPrec rest ≤ PREFIX := hrest
+      simp only [headPrec] at this
+      omega)]
+    simp only [unwind, Nat.add_sub_cancel]
+    refine ⟨pv2, ?_⟩
+    have hlast : lastTok (T.pre o r).pr = lastTok (parenIf (r.lvl < PREFIX) r.pr) := by
+      simp only [T.pr]
+      rw [lastTok_append_ne _ _ (by simpa using parenIf_ne_nil _ r)]
+    rw [hlast]
+    simp [T.k, T.toExpr]
   | .node o l r, hwf => by
     obtain ⟨ho, hwl, hwr⟩ := hwf
     have ihl := L_all l hwl
     have ihr := L_all r hwr
     intro p f rest prev tn fn d hp hrest hd hf
-    simp only [T.lvl] at hp hrest
+    simp only [T.lvl, T.plvl] at hp hrest
     simp only [T.size] at hf
     simp only [T.nest] at hd
     have hkl := l.k_le_size
@@ -239,6 +378,7 @@ theorem L_all : ∀ (t : T), t.wf → Lstmt t
       (by
         intro hb
         have : ¬ (l.lvl < precedence o.ty) := by simpa using hb
+        have := l.lvl_le_plvl hwl
         refine ⟨by omega, ?_⟩
         simp only [headPrec, List.headD_cons]; omega)
       (by
@@ -254,6 +394,7 @@ theorem L_all : ∀ (t : T), t.wf → Lstmt t
       (by
         intro hb
         have : ¬ (r.lvl ≤ precedence o.ty) := by simpa using hb
+        have := r.lvl_le_plvl hwr
         exact ⟨by omega, by omega⟩)
       (by
         by_cases hb : r.lvl ≤ precedence o.ty <;> simp [hb] at hd ⊢ <;> omega)
@@ -283,7 +424,12 @@ theorem L_all : ∀ (t : T), t.wf → Lstmt t
 
 theorem T.size_le_pr (t : T) : t.size ≤ 4 * t.pr.length := by
   induction t with
-  | leaf n => simp [T.size, T.pr]
+  | leaf tok e => simp [T.size, T.pr]
+  | pre o r ih =>
+    simp only [T.size, T.pr, List.length_append, List.length_cons, List.length_nil]
+    have h2 : r.pr.length ≤ (parenIf (r.lvl < PREFIX) r.pr).length := by
+      unfold parenIf; split <;> simp <;> omega
+    omega
   | node o l r ihl ihr =>
     simp only [T.size, T.pr, List.length_append, List.length_cons, List.length_nil]
     have h1 : l.pr.length ≤ (parenIf (l.lvl < precedence o.ty) l.pr).length := by
@@ -312,7 +458,7 @@ theorem pratt_round_trip (t : T) (hwf : t.wf) (hn : t.nest ≤ maxNesting) :
   have hlen : (retTok :: t.pr ++ [semiTok, Token.eof]).length + 2 = (t.pr.length + 3) + 2 := by simp
   rw [hlen]
   obtain ⟨pv, hL⟩ := L_all t hwf LOWEST (F' + 1) [semiTok, Token.eof] retTok false false 0
-    (t.lvl_pos hwf) (by simp [headPrec, semiTok, precedence]; exact Nat.le_of_lt (t.lvl_pos hwf)) (by omega) (by omega)
+    (t.plvl_pos hwf) (by simp [headPrec, semiTok, precedence]; exact Nat.le_of_lt (t.lvl_pos hwf)) (by omega) (by omega)
   obtain ⟨h, hh⟩ : ∃ h, F' + 1 - t.k = h + 1 := ⟨F' + 1 - t.k - 1, by omega⟩
   rw [hh, loop_stop h LOWEST _ _ (by simp [PState.peek, semiTok, precedence, LOWEST])] at hL
   simp only [parseProgramLoop, PState.curIs, PState.cur, retTok, List.headD_cons, List.cons_append,
